@@ -152,13 +152,18 @@ pub fn run(a: &Args) -> Batch {
                     if let Ok(t) = std::fs::read_to_string(&cx) {
                         if let (Some(a), Some(b)) = (t.find("<nomPro>"), t.find("</nomPro>")) {
                             if a < b {
-                                let blank = *r.pick(&["", "   ", "\n"]);
+                                // no name at all, or a long one full of two-byte characters (whatever is done with
+                                // a name - cut, padded, quoted - meets a character boundary or its middle)
+                                let long_a = "ñ".repeat(60);
+                                let long_b = format!("a{}", "ñ".repeat(60));
+                                let names = ["", "   ", "\n", long_a.as_str(), long_b.as_str(), "Edificio de oficinas en la avenida de Cádiz, bloque 3º \"B\""];
+                                let blank = names[(i / 5) % names.len()];
                                 let _ = std::fs::write(&cx, format!("{}<nomPro>{}{}", &t[..a], blank, &t[b..]));
                             }
                         }
                     }
                 }
-                dirs.push((format!("{} without a project name", name), dst));
+                dirs.push((format!("{} with another project name (none, or long and not ASCII)", name), dst));
             }
             1 | 2 => {
                 copy_dir(d, &dst, false);
